@@ -228,6 +228,9 @@ static void run_pl_enc(hctx* h, ptype t, const uint8_t* img, size_t n, int k, co
         size_t dirty = isz + n + 24; uint8_t* ff = h_alloc(dirty); memset(ff, 0xFF, dirty);
         (void)!carquet_buffer_append(&out, ff, dirty); carquet_buffer_clear(&out); free(ff);
     }
+    /* ... and in one case of three the buffer already holds bytes (levels of the page): the encoder appends behind them */
+    size_t pre = (n + isz) % 3 == 1 ? 1 + (n * 5 + isz) % 37 : 0;
+    for (size_t q = 0; q < pre; q++) { uint8_t c = (uint8_t)(0x5A ^ q); (void)!carquet_buffer_append(&out, &c, 1); }
     carquet_status_t st;
     switch (t) {
     case T_BOOL: st = carquet_encode_plain_boolean(in, (int64_t)n, &out); break;
@@ -239,16 +242,19 @@ static void run_pl_enc(hctx* h, ptype t, const uint8_t* img, size_t n, int k, co
     case T_BA: st = carquet_encode_plain_byte_array(bas, (int64_t)n, &out); break;
     default: st = carquet_encode_plain_fixed_byte_array(in, (int64_t)n, (int32_t)k, &out); break;
     }
-    fprintf(f, " | st=%s bytes=", stname(st)); h_hex(f, out.data, out.size);
+    int pre_ok = out.size >= pre;
+    for (size_t q = 0; pre_ok && q < pre; q++) if (out.data[q] != (uint8_t)(0x5A ^ q)) pre_ok = 0;
+    const uint8_t* od = pre_ok ? out.data + pre : out.data; size_t on = pre_ok ? out.size - pre : out.size;
+    fprintf(f, " | st=%s bytes=", stname(st)); h_hex(f, od, on);
     /* C11 predicate on the real code: the real decoder, given exactly these bytes, returns the
      * values and reports having consumed all of them */
     int rt = 0;
     if (st == CARQUET_OK) {
-        uint8_t* enc = h_alloc(out.size); if (out.size) memcpy(enc, out.data, out.size);
+        uint8_t* enc = h_alloc(on); if (on) memcpy(enc, od, on);
         if (t == T_BA) {
             carquet_byte_array_t* o = (carquet_byte_array_t*)h_alloc(n * sizeof *o);
-            int64_t r = carquet_decode_plain_byte_array(enc, out.size, o, (int64_t)n);
-            rt = (r == (int64_t)out.size);
+            int64_t r = carquet_decode_plain_byte_array(enc, on, o, (int64_t)n);
+            rt = (r == (int64_t)on);
             for (size_t i = 0; rt && i < n; i++) {
                 if ((size_t)o[i].length != bl->len[i]) { rt = 0; break; }
                 for (size_t j = 0; j < bl->len[i]; j++) if (o[i].data[j] != bl->data[i][j]) rt = 0;
@@ -257,8 +263,8 @@ static void run_pl_enc(hctx* h, ptype t, const uint8_t* img, size_t n, int k, co
         } else {
             size_t osz = (t == T_BOOL) ? n : isz;
             uint8_t* o = h_alloc(osz);
-            int64_t r = call_plain_dec(t, 0, enc, out.size, o, (int64_t)n, k);
-            rt = (r == (int64_t)out.size);
+            int64_t r = call_plain_dec(t, 0, enc, on, o, (int64_t)n, k);
+            rt = (r == (int64_t)on);
             if (rt && t == T_BOOL) { for (size_t i = 0; i < n; i++) if (o[i] != (in[i] ? 1 : 0)) rt = 0; }
             else if (rt && osz) rt = memcmp(o, in, osz) == 0;
             free(o);
@@ -267,7 +273,7 @@ static void run_pl_enc(hctx* h, ptype t, const uint8_t* img, size_t n, int k, co
         st_ok++;
     } else st_err++;
     /* every generated pl_enc input is a valid value sequence: a failing encode fails C11 too */
-    fprintf(f, " p_rt=%d%s\n", st == CARQUET_OK ? rt : 0, n == 0 ? " triv=1" : "");
+    fprintf(f, " p_rt=%d p_appends=%d%s\n", st == CARQUET_OK ? rt : 0, pre_ok, n == 0 ? " triv=1" : "");
     h->n_lines++; st_ops[0]++; stat_len(n);
     carquet_buffer_destroy(&out);
     free(bas); free(in);
